@@ -143,21 +143,37 @@ def isPubAck : Req → Bool
   | .puback _ => true
   | _ => false
 
-/-- flow-control condition of the request branch (`if !pending.is_empty() || (!inflight_full && !collision)`) -/
+/-- flow-control condition for NEW requests (`!inflight_full && !collision`) -/
 def gateOpen {σ} (ops : StateOps σ) (st : σ) : Bool :=
   decide (ops.inflight st < ops.maxInflight st) && !ops.collision st
 
-def selectEnabled {σ} (ops : StateOps σ) (s : LState σ) : Bool :=
-  !s.pending.isEmpty || gateOpen ops s.st
+/-- a carried-over request that already owns a packet id: an unacknowledged publish or a pending
+    release (`Request::Publish(p) if p.pkid != 0`, `Request::PubRel(_)`); everything else in
+    `pending` was merely queued in the channel when the connection failed -/
+def isReplay : Req → Bool
+  | .publish _ pkid _ => pkid != 0
+  | .pubrel _ => true
+  | _ => false
 
-/-- `EventLoop::clean`: network and timer dropped, `pending ++= state.clean()`, then the
-    channel is drained into `pending` without the `PubAck`s -/
+/-- guard of the request branch: `pending_ready || (pending.is_empty() && !inflight_full && !collision)`
+    where `pending_ready` = the head of `pending` is a retransmission, or it is a new request and
+    flow control admits it. Retransmissions are never held back (the acknowledgements that reopen
+    the window or resolve a collision may depend on them); new requests obey flow control whether
+    they come from `pending` or from the channel. -/
+def selectEnabled {σ} (ops : StateOps σ) (s : LState σ) : Bool :=
+  match s.pending with
+  | q :: _ => isReplay q || gateOpen ops s.st
+  | [] => gateOpen ops s.st
+
+/-- `EventLoop::clean`: network and timer dropped; what the state machine holds
+    (`state.clean()`: sent or re-sent on the connection that failed) goes IN FRONT of the requests
+    still waiting in `pending`; then the channel is drained behind them without the `PubAck`s -/
 def loopClean {σ} (ops : StateOps σ) (s : LState σ) : LState σ :=
   { s with
     net := none
     timer := Client.Timer.clean s.timer
     st := (ops.clean s.st).1
-    pending := s.pending ++ (ops.clean s.st).2 ++ s.channel.filter (fun r => !isPubAck r)
+    pending := (ops.clean s.st).2 ++ s.pending ++ s.channel.filter (fun r => !isPubAck r)
     channel := [] }
 
 /-- error path of `poll()`: `clean()` then `Err(e)` -/
